@@ -33,14 +33,18 @@ def safe_facts(kind, hdr):
                 '⟨PField.inside_mono hS.fld hS.hi, hS.pnc⟩', 'PField.inside_mono hS.fld hS.hi', 'hS', 'hS')
     if kind == 'cseq':
         return (['have hS := parseCSeqVal_safe b o hv.cseq hfit H.cseq', 'rw [hq] at hS'],
-                'hS.1', 'hS.1.2.2.1', 'hS.2 (by intro hh; cases hh)', 'hS.2 (by intro hh; cases hh)')
+                'hS.1', 'hS.1.2.2.1', 'hS.2.2 (by intro hh; cases hh)', 'hS.2.2 (by intro hh; cases hh)')
     if kind == 'clen':
         return (['have hS := parseCLenVal_safe b o hv.clen H.clen', 'rw [hq] at hS'],
-                'hS.1', 'hS.1.1', 'hS.2 (by intro hh; cases hh)', 'hS.2 (by intro hh; cases hh)')
+                'hS.1', 'hS.1.1', 'hS.2.1 (by intro hh; cases hh)', 'hS.2.1 (by intro hh; cases hh)')
     if kind == 'expires':
         return (['have hS := parseUIntVal_safe b o hv.expires H.expires', 'rw [hq] at hS'],
                 'hS.out', 'PField.inside_mono hS.fld hS.hi', 'hS', 'hS')
     raise ValueError(kind)
+
+def nle(kind):
+    return {'from_': 'hS.1.ho', 'to': 'hS.1.ho', 'callid': 'hS.hi', 'cseq': 'hS.2.1', 'clen': 'hS.2.2', 'expires': 'hS.hi',
+            'contacts': 'hS.2.2.2', 'pais': 'hS.2.2.2'}[kind]
 
 def okr(kind, hdr):
     if kind in ('from_', 'to'):
@@ -64,7 +68,7 @@ theorem parseBody_safe (b : Buf) (o : Nat) (h : Hdr) (hv : PHdrVals) (hst : h.st
     ∃ hv2, hb2 = some hv2 ∧ HvFine b hv2 ∧ h2.pnc = false ∧ h2.name = h.name ∧ h2.val.inside b.size ∧
       (h2.state = .bodyStart → n = o ∧ e = .ok ∧ h2 = h ∧ hv2 = hv) ∧ (h2.state = .bodyStart ∨ h2.state.isVal) ∧
       ((e = .ok ∨ e = .moreBytes) → o ≤ n ∧ n ≤ b.size) ∧
-      (e = .ok → HvSafe b n .fin hv2) ∧ (e = .moreBytes → HvSafe b n h2.state hv2) := by
+      (e = .ok → HvSafe b n .fin hv2) ∧ (e = .moreBytes → HvSafe b n h2.state hv2) ∧ n ≤ b.size := by
   have hrange : (e = .ok ∨ e = .moreBytes) → o ≤ n ∧ n ≤ b.size := by
     intro he
     rcases he with rfl | rfl
@@ -77,12 +81,12 @@ theorem parseBody_safe (b : Buf) (o : Nat) (h : Hdr) (hv : PHdrVals) (hst : h.st
       ∃ hv2, hb2 = some hv2 ∧ HvFine b hv2 ∧ h2.pnc = false ∧ h2.name = h.name ∧ h2.val.inside b.size ∧
       (h2.state = .bodyStart → n = o ∧ e = .ok ∧ h2 = h ∧ hv2 = hv) ∧ (h2.state = .bodyStart ∨ h2.state.isVal) ∧
       ((e = .ok ∨ e = .moreBytes) → o ≤ n ∧ n ≤ b.size) ∧
-      (e = .ok → HvSafe b n .fin hv2) ∧ (e = .moreBytes → HvSafe b n h2.state hv2) := by
+      (e = .ok → HvSafe b n .fin hv2) ∧ (e = .moreBytes → HvSafe b n h2.state hv2) ∧ n ≤ b.size := by
     intro n e h2 hb2 hh
     simp only [Prod.mk.injEq] at hh
     obtain ⟨rfl, rfl, rfl, rfl⟩ := hh
     exact ⟨hv, rfl, HF, hpnc, rfl, hval, fun _ => ⟨rfl, rfl, rfl, rfl⟩, Or.inl hst, fun _ => ⟨Nat.le_refl _, ho⟩,
-      fun _ => H.restate hn1 hn2 (by decide) (by decide), fun hh => by cases hh⟩
+      fun _ => H.restate hn1 hn2 (by decide) (by decide), (fun hh => by cases hh), ho⟩
   unfold parseBody parseFromVal at hr
   simp only at hr''')
     for (kind, hdr, call, st, vf) in kinds:
@@ -96,7 +100,7 @@ theorem parseBody_safe (b : Buf) (o : Nat) (h : Hdr) (hv : PHdrVals) (hst : h.st
             A(f'      rw [hq] at hr; simp only [Prod.mk.injEq] at hr')
             A(f'      obtain ⟨rfl, rfl, rfl, rfl⟩ := hr')
             for l in lines: A('      ' + l)
-            A(f'      refine ⟨_, rfl, {mkfine(kind, fineP)}, hpnc, rfl, ?_, (fun hh => by cases hh), Or.inr (by unfold HState.isVal; simp), hrange, ?_, ?_⟩')
+            A(f'      refine ⟨_, rfl, {mkfine(kind, fineP)}, hpnc, rfl, ?_, (fun hh => by cases hh), Or.inr (by unfold HState.isVal; simp), hrange, ?_, ?_, {nle(kind)}⟩')
             A(f'      · show (if (e1 == Err.ok) = true then f1.{vf} else h.val).inside b.size')
             A(f'        split')
             A(f'        · exact {valP}')
@@ -122,7 +126,7 @@ theorem parseBody_safe (b : Buf) (o : Nat) (h : Hdr) (hv : PHdrVals) (hst : h.st
             A(f'    rcases hq : {fn} b o {{ hv.{kind} with hNo := hv.{kind}.hNo + 1, lastHVal := {{}} }} with ⟨n1, e1, f1⟩')
             A(f'    rw [hq] at hr hS; simp only [Prod.mk.injEq] at hr')
             A(f'    obtain ⟨rfl, rfl, rfl, rfl⟩ := hr')
-            A(f'    refine ⟨_, rfl, {mkfine(kind, "hS.1")}, hpnc, rfl, ?_, (fun hh => by cases hh), Or.inr (by unfold HState.isVal; simp), hrange, ?_, ?_⟩')
+            A(f'    refine ⟨_, rfl, {mkfine(kind, "hS.1")}, hpnc, rfl, ?_, (fun hh => by cases hh), Or.inr (by unfold HState.isVal; simp), hrange, ?_, ?_, {nle(kind)}⟩')
             A(f'    · show (if (e1 == Err.ok) = true then f1.lastHVal else h.val).inside b.size')
             A(f'      split')
             A(f'      · exact hS.1.lhv')
@@ -132,7 +136,7 @@ theorem parseBody_safe (b : Buf) (o : Nat) (h : Hdr) (hv : PHdrVals) (hst : h.st
                 A(f'      obtain ⟨r1, r2⟩ := hrange ({tag})')
                 A(f'      have Hm := H.mono r1 r2')
                 if case == 'ok':
-                    lst = ('(fun hh => by cases hh)', 'fun _ => (hS.2.2 rfl).1')
+                    lst = ('(fun hh => by cases hh)', 'fun _ => (hS.2.2.1 rfl).1')
                 else:
                     A(f'      show HvSafe b n1 HState.{st} _')
                     lst = ('fun _ => hS.2.1 rfl', 'fun hh => absurd rfl hh')
@@ -153,7 +157,7 @@ theorem hlCont_safe (b : Buf) (o : Nat) (h : Hdr) (hv : PHdrVals) (ho : o ≤ b.
     ∃ hv2, st'.2 = some hv2 ∧ HvFine b hv2 ∧ st'.1.pnc = false ∧ st'.1.name = h.name ∧ st'.1.val.inside b.size ∧
       ((e = .ok ∨ e = .moreBytes) → o ≤ n ∧ n ≤ b.size) ∧
       (e = .ok → st'.1.state = .fin ∧ HvSafe b n .fin hv2) ∧
-      (e = .moreBytes → st'.1.state = h.state ∧ HvSafe b n h.state hv2) := by
+      (e = .moreBytes → st'.1.state = h.state ∧ HvSafe b n h.state hv2) ∧ n ≤ b.size := by
   have hmore : e = .moreBytes → o ≤ n ∧ n ≤ b.size := by
     intro he
     subst he
@@ -176,7 +180,7 @@ theorem hlCont_safe (b : Buf) (o : Nat) (h : Hdr) (hv : PHdrVals) (ho : o ≤ b.
             A(f'    have hrange : (e1 = .ok ∨ e1 = .moreBytes) → o ≤ n1 ∧ n1 ≤ b.size :=')
             A(f'      fun he => he.elim (fun he => by subst he; exact {okr(kind, hdr)}) hmore')
             for l in lines: A('    ' + l)
-            A(f'    refine ⟨_, rfl, {mkfine(kind, fineP)}, ?_, ?_, ?_, hrange, ?_, ?_⟩')
+            A(f'    refine ⟨_, rfl, {mkfine(kind, fineP)}, ?_, ?_, ?_, hrange, ?_, ?_, {nle(kind)}⟩')
             A(f'    · show (if (e1 == Err.ok) = true then {{ h with val := f1.{vf}, state := HState.fin }} else h).pnc = false')
             A(f'      split <;> exact hpnc')
             A(f'    · show (if (e1 == Err.ok) = true then {{ h with val := f1.{vf}, state := HState.fin }} else h).name = h.name')
@@ -202,7 +206,7 @@ theorem hlCont_safe (b : Buf) (o : Nat) (h : Hdr) (hv : PHdrVals) (ho : o ≤ b.
             A(f'    obtain ⟨rfl, rfl, rfl⟩ := hs')
             A(f'    have hrange : (e1 = .ok ∨ e1 = .moreBytes) → o ≤ n1 ∧ n1 ≤ b.size :=')
             A(f'      fun he => he.elim (fun he => by subst he; exact {okr(kind, hdr)}) hmore')
-            A(f'    refine ⟨_, rfl, {mkfine(kind, "hS.1")}, ?_, ?_, ?_, hrange, ?_, ?_⟩')
+            A(f'    refine ⟨_, rfl, {mkfine(kind, "hS.1")}, ?_, ?_, ?_, hrange, ?_, ?_, {nle(kind)}⟩')
             A(f'    · show (if (e1 == Err.ok) = true then {{ h with val := f1.lastHVal, state := HState.fin }} else h).pnc = false')
             A(f'      split <;> exact hpnc')
             A(f'    · show (if (e1 == Err.ok) = true then {{ h with val := f1.lastHVal, state := HState.fin }} else h).name = h.name')
@@ -216,7 +220,7 @@ theorem hlCont_safe (b : Buf) (o : Nat) (h : Hdr) (hv : PHdrVals) (ho : o ≤ b.
                 A(f'      obtain ⟨r1, r2⟩ := hrange ({tag})')
                 A(f'      have Hm := H.mono r1 r2')
                 if case == 'ok':
-                    lst = ('(fun hh => by cases hh)', 'fun _ => (hS.2.2 rfl).1')
+                    lst = ('(fun hh => by cases hh)', 'fun _ => (hS.2.2.1 rfl).1')
                     first = 'rfl'
                 else:
                     lst = ('fun _ => hS.2.1 rfl', 'fun hh => absurd rfl hh')
